@@ -141,7 +141,7 @@ func (c Int8) POW(a, k Int8) Int8 {
 /* -------------------------------------------------------------------------- */
 func (c Int8) SQRT(a Int8) Int8 {
   x := a.GetFloat64()
-  c.SetFloat64(math.Sqrt(x))
+  c.SetFloat64(math.Pow(x, 0.5))
   return c
 }
 /* -------------------------------------------------------------------------- */
